@@ -42,19 +42,25 @@ def expected(groups_pos, rel, byid):
     return out
 
 
-def run_impl(inputs, contigs, by_barcodes, rel):
+def run_impl(inputs, contigs, by_barcodes, rel, mode="stream"):
+    """The allele-aware iterator driven in one of c11.MODES (how the consumer takes the groups, how the contig order is
+    given, what the inputs are made of)."""
     from maflib.overlap_iter import AlleleOverlapType, LocatableByAlleleOverlapIterator
-    try:
-        it = LocatableByAlleleOverlapIterator([iter(x) for x in inputs], contigs=contigs, by_barcodes=by_barcodes,
-                                              overlap_type=AlleleOverlapType[rel])
-        groups = []
-        for g in it:
-            groups.append([[r.rid for r in slot] for slot in g])
-            if len(groups) > 300:
-                return groups, "RUNAWAY"
-        return groups, None
-    except Exception as e:  # noqa
-        return None, exc_name(e)
+
+    def make(iters, fasta_index):
+        if fasta_index is not None:
+            return LocatableByAlleleOverlapIterator(iters, fasta_index=fasta_index, by_barcodes=by_barcodes,
+                                                    overlap_type=AlleleOverlapType[rel])
+        return LocatableByAlleleOverlapIterator(iters, contigs=contigs, by_barcodes=by_barcodes,
+                                                overlap_type=AlleleOverlapType[rel])
+    return c11.drive(make, inputs, contigs, mode, 300, allele_columns=True)
+
+
+def mode_applies(mode, inputs, contigs):
+    """A MafRecord has one alternate allele (Tumor_Seq_Allele2): real records stand only for items with exactly one."""
+    if mode == "records":
+        return all(len(x.alts) == 1 for inp in inputs for x in inp)
+    return c11.mode_applies(mode, contigs)
 
 
 def recs_of(inputs):
@@ -73,52 +79,76 @@ def model_request(inputs, contigs, by_barcodes, rel):
             "alleles": [{"ref": x.ref, "alts": list(x.alts)} for x in sorted(flat, key=lambda x: x.rid)]}
 
 
-def eval_case(inputs, contigs, by_barcodes, rel):
-    """One configuration on the implementation + the property's oracle.
-    Returns a dict: where, groups, exc, failures, and (when the oracle ran) pos = positional groups, want = documented result."""
-    groups, exc = run_impl(inputs, contigs, by_barcodes, rel)
+def eval_case(inputs, contigs, by_barcodes, rel, modes=None):
+    """One configuration on the implementation + the property's oracle, for every use of the iterator in `modes`
+    (default: all of c11.MODES that apply).
+    Returns a dict: where, groups, exc (of the plain streaming use), failures, and (when the oracle ran) pos = positional
+    groups, want = documented result."""
     where = {"inputs": [["%r ref=%s alts=%s" % (x, x.ref, x.alts) for x in inp] for inp in inputs], "relation": rel,
              "by_barcodes": by_barcodes, "contigs": contigs}
-    res = {"where": where, "groups": groups, "exc": exc, "failures": [], "pos": None, "want": None}
+    res = {"where": where, "groups": None, "exc": None, "failures": [], "pos": None, "want": None, "by_mode": {}}
     stored = dict(where, recs=recs_of(inputs))
-    if exc:
-        res["failures"].append(dict(stored, what="allele-aware iteration failed with %s" % exc, kind="exception"))
-        return res
-    pos, pexc = c11.run_impl(inputs, contigs, by_barcodes)
-    if pexc:
-        res["pexc"] = pexc
-        return res
-    byid = {x.rid: x for inp in inputs for x in inp}
-    want = expected(pos, rel, byid)
-    res["pos"], res["want"] = pos, want
-    if groups != want:
-        res["failures"].append(dict(stored, what="returned groups differ from 'first input partitioned by compatibility, other inputs filtered by the emitted subgroup'",
-                                    kind="groups", expected=want, got=groups))
-    first_ids = [rid for g in groups for rid in g[0]]
-    if sorted(first_ids) != sorted(x.rid for x in inputs[0]):
-        res["failures"].append(dict(stored, what="not every record of the first input is returned exactly once", kind="first-input"))
+    pos = pexc = want = None
+    for mode in (c11.MODES if modes is None else modes):
+        if not mode_applies(mode, inputs, contigs):
+            continue
+        groups, exc = run_impl(inputs, contigs, by_barcodes, rel, mode=mode)
+        res["by_mode"][mode] = (groups, exc)
+        if mode == "stream":
+            res["groups"], res["exc"] = groups, exc
+        tag = {} if mode == "stream" else {"mode": mode}
+        note = "" if mode == "stream" else " (%s)" % c11.MODE_TEXT[mode]
+        if res["failures"] and mode != "stream" and not all("mode" in f for f in res["failures"]):
+            continue                                   # the plain use fails already
+        if exc:
+            res["failures"].append(dict(stored, what="allele-aware iteration failed with %s%s" % (exc, note), kind="exception", **tag))
+            continue
+        if pos is None and pexc is None:
+            pos, pexc = c11.run_impl(inputs, contigs, by_barcodes)
+            if pexc:
+                res["pexc"] = pexc
+            else:
+                byid = {x.rid: x for inp in inputs for x in inp}
+                want = expected(pos, rel, byid)
+                res["pos"], res["want"] = pos, want
+        if pexc:
+            continue
+        if groups != want:
+            res["failures"].append(dict(stored, what="returned groups differ from 'first input partitioned by compatibility, other inputs filtered by the emitted subgroup'" + note,
+                                        kind="groups", expected=want, got=groups, **tag))
+        first_ids = [rid for g in groups for rid in (g[0] if g else [])]
+        if sorted(first_ids) != sorted(x.rid for x in inputs[0]):
+            res["failures"].append(dict(stored, what="not every record of the first input is returned exactly once" + note, kind="first-input", **tag))
     return res
 
 
 def run(ctx):
     out = Outcome()
     out.rule = ("C11's configurations (1-3 inputs, <= 7 intervals, chromosomes, barcode pairs, both grouping modes) with reference alleles from {A, AT} and alternate-allele lists from "
-                "{[], [C], [G], [C,G], [G,C], [C,G,T], [T]} (empty, equal, permuted, overlapping, contained) x the three relations; "
+                "{[], [C], [G], [C,G], [G,C], [C,G,T], [T]} (empty, equal, permuted, overlapping, contained) x the three relations; a second family with exactly one alternate allele "
+                "per item; every configuration is run under each use of the iterator that applies (" + "; ".join("%s = %s" % (m, c11.MODE_TEXT[m]) for m in c11.MODES) + "); "
                 "non-trivial = a positional group whose first slot splits into >= 2 subgroups or another slot is filtered; distinct configurations")
     rng = ctx.rng("c12")
     reqs, meta = [], []
-    for _ in range(ctx.scale(700, 6000)):
+
+    def add_case(rng, alts_pool):
         n_inputs, contigs, by_barcodes, items = c11.gen_config(rng, 7)
         seed = rng.randrange(10**9)
 
         def alleles(rid, seed=seed):
             import random
             r = random.Random(seed * 1000 + rid)
-            return r.choice(["A", "A", "AT"]), tuple(r.choice(ALTS))
+            return r.choice(["A", "A", "AT"]), tuple(r.choice(alts_pool))
         inputs = c11.build_inputs(n_inputs, contigs, by_barcodes, items, alleles=alleles)
         rel = rng.choice(RELS)
         reqs.append(model_request(inputs, contigs, by_barcodes, rel))
         meta.append((inputs, contigs, by_barcodes, rel))
+    for _ in range(ctx.scale(700, 6000)):
+        add_case(rng, ALTS)
+    # the same with exactly one alternate allele per item: these also run over real MafRecord objects
+    rng1 = ctx.rng("c12", "single-alt")
+    for _ in range(ctx.scale(250, 2000)):
+        add_case(rng1, [a for a in ALTS if len(a) == 1])
     mo = ctx.driver.run(reqs)
     for r, m, (inputs, contigs, by_barcodes, rel) in zip(reqs, mo, meta):
         out.evaluations += 1
@@ -130,6 +160,8 @@ def run(ctx):
         elif m != i:
             out.disagreements.append({"op": "allele.run", "where": where, "model": m, "impl": i})
         out.failures += res["failures"]
+        for mode in res["by_mode"]:
+            out.distribution["use:" + mode] += 1
         if res["want"] is None:
             continue
         pos, want = res["pos"], res["want"]
@@ -149,8 +181,12 @@ def replay_case(ctx, failure):
     print("replay C12: LocatableByAlleleOverlapIterator over %d input(s), overlap_type=%s, by_barcodes=%s, contigs=%s" % (len(inputs), rel, by_barcodes, contigs))
     for k, inp in enumerate(inputs):
         print("  input %d: %s" % (k, "; ".join("%r ref=%s alts=%s" % (x, x.ref, x.alts) for x in inp) or "(empty)"))
-    res = eval_case(inputs, contigs, by_barcodes, rel)
-    groups, exc = res["groups"], res["exc"]
+    mode = failure.get("mode", "stream")
+    if mode not in c11.MODES or not mode_applies(mode, inputs, contigs):
+        return None
+    print("  use: %s" % c11.MODE_TEXT[mode])
+    res = eval_case(inputs, contigs, by_barcodes, rel, modes=[mode])
+    groups, exc = res["by_mode"][mode]
     print("  implementation: %s" % ("raised %s" % exc if exc else "groups (record ids per input) %s" % groups))
     if res["want"] is not None:
         print("  positional groups (C11 iterator): %s" % res["pos"])
